@@ -39,6 +39,7 @@ class Box(Symbol):
     weight: int = 0
     spare: Optional[Part] = None
     row: Tuple[Part, ...] = ()
+    extras: Optional[List[Part]] = None
 
     def __repr__(self):
         return f"{type(self).__name__}({self.label})"
